@@ -49,12 +49,22 @@ def builder_sites(P, include_decoder=False):
     return out
 
 
+def _live(P, fn, _c={}):
+    """reachable from the nameable API (incl. the daemon thread) or a trait impl: code that only tests reach — a
+    cfg(test) wrapper kept for a unit test — cannot change what the daemon sends"""
+    k = id(P)
+    if k not in _c:
+        roots = [f.name for f in P.lib_fns() if (f.j.get("nameable") if f.j.get("nameable") is not None else f.exported) or f.j.get("impl_trait")]
+        _c[k] = P.reachable_from(roots)
+    return fn.name in _c[k]
+
+
 def _param_alternatives(P, fn, e, depth=0):
     """expand parameters of non-public helper functions to the expressions passed at their call sites"""
     out = []
     for a in strip(e):
         if a[0] == "param" and depth < 4 and not fn.is_closure:
-            sites = P.call_sites_of(fn.name)
+            sites = [x for x in P.call_sites_of(fn.name) if _live(P, x[0])]
             if sites:
                 for (cf, b, t) in sites:
                     if a[1] - 1 < len(t["args"]):
@@ -350,7 +360,7 @@ def check_service_selected_by_resolved_name(ctx, P, rule):
     from .f12 import ret_exprs
     h = P.one("Zeroconf::handle_query")
     tr = tracer(P, h)
-    sites = [(b, t) for b, t in h.calls() if name_matches(cname(t), "add_answer_of_service")]
+    sites = [(b, t) for b, t in h.calls() if method(cname(t)).startswith("add_answer_of_service")]
     ctx.require(len(sites) >= 1, rule + ".anchor", h.name + "|add_answer_of_service", h.loc(), "%d call(s)" % len(sites))
     for k, (b, t) in enumerate(sites):
         # the ServiceInfo argument
